@@ -79,6 +79,8 @@ try:
 finally:
     sh("git -C /repo checkout -- .")
     sh("python3 translate/gen_tables.py", cwd=VERIF)
+    # evidence written while /repo carried the seeded change describes the changed tree: put the committed files back
+    sh("git checkout -- evidence && rm -rf replays/*", cwd=VERIF)
 meta["checks"] = results
 meta["caught_by"] = [k for k, v in results.items() if v["exit"] == "violation"]
 meta["ran"] = "bin/seedtest.py %s %s %s %s" % (prop, wt, n, " ".join(extra))
